@@ -165,6 +165,21 @@ def gen_history(cat, prop, seed, h, tier):
             push_call(rng.choice(ids_all))
     for _ in pending:
         ops.append({"k": "force"})
+    # interrupt sweeps: one entry interrupted at EVERY xrspatial line event of its wrapper (enumerated,
+    # not sampled); JIT-per-call entries (proximity) are left to the sampled interrupts
+    skip = ("proximity", "allocation", "direction", "viewshed", "generate_terrain", "perlin", "polygonize")
+    by_op = collections.defaultdict(list)
+    for e in entries:
+        if e["op"] not in skip and not e.get("expect_error"):
+            by_op[e["op"]].append(e)
+    op_names = sorted(by_op)
+    n_sweeps = (2 if tier == "thorough" else (1 if rng.random() < 0.35 else 0)) if op_names else 0
+    for j in range(n_sweeps):
+        # ops take turns (history index decides), and within an op the entries with the most optional
+        # parameters set are preferred: their wrappers have the most code between entry and exit
+        opn = op_names[(2 * h + j) % len(op_names)]
+        cands = sorted(by_op[opn], key=lambda e: (-len(e["params"]), e["id"]))[:4]
+        ops.insert(rng.randint(len(ops) // 2, len(ops)), {"k": "interrupt_sweep", "e": rng.choice(cands)["id"]})
     if prop == "C11":
         kinds = {o["k"] for o in ops}
         gens = [i for i in dask_ids if ent[i]["op"] in ("perlin", "generate_terrain")]
@@ -471,6 +486,23 @@ def run_history(prop, cat, hist, refs, start=0, max_violations=3):
             one_call(i, ent[op["e"]])
         elif k == "interrupt":
             one_call(i, ent[op["e"]], interrupt_at=op["at"])
+        elif k == "interrupt_sweep":
+            e_ = ent[op["e"]]
+            counter = Interrupter(10 ** 9)
+            sys.settrace(counter)
+            try:
+                histsim.run_call(e_, get_rasters(e_), util.derive_seed(hist["sched_seed"], i, "count"), ("dfs", None))
+            except BaseException:
+                pass
+            finally:
+                sys.settrace(None)
+            n_lines = min(counter.count, 160)
+            res["faults"]["interrupt_sweeps"] += 1
+            res["faults"]["interrupt_sweep_points"] += n_lines
+            for at in range(1, n_lines + 1):
+                one_call(i, e_, interrupt_at=at)
+                if len(res["violations"]) >= max_violations:
+                    break
         elif k == "scribble":
             if last is not None:
                 e, rasters, o = last
